@@ -1862,12 +1862,13 @@ bool TypeChecker::checkExpression(expression_t expr)
         break;
 
     case NEQ:
-        if (areEqCompatible(expr[0].get_type(), expr[1].get_type())) {
-            type = type_t::create_primitive(Constants::BOOL);
-        } else if ((is_clock(expr[0]) && is_clock(expr[1])) || (is_clock(expr[0]) && is_integer(expr[1])) ||
-                   (is_integer(expr[0]) && is_clock(expr[1])) || (is_diff(expr[0]) && is_integer(expr[1])) ||
-                   (is_integer(expr[0]) && is_diff(expr[1]))) {
+        // clocks first: two clocks are also "equality compatible", but x != y is a (non-convex) clock constraint
+        if ((is_clock(expr[0]) && is_clock(expr[1])) || (is_clock(expr[0]) && is_integer(expr[1])) ||
+            (is_integer(expr[0]) && is_clock(expr[1])) || (is_diff(expr[0]) && is_integer(expr[1])) ||
+            (is_integer(expr[0]) && is_diff(expr[1]))) {
             type = type_t::create_primitive(CONSTRAINT);
+        } else if (areEqCompatible(expr[0].get_type(), expr[1].get_type())) {
+            type = type_t::create_primitive(Constants::BOOL);
         } else if (is_number(expr[0]) && is_number(expr[1])) {
             type = type_t::create_primitive(Constants::BOOL);
         }
